@@ -136,6 +136,19 @@ theorem C01_json_roundtrip (side : Side) (t : Ty) (v : Val) (h : HasTy t v) :
 theorem C01_smile_roundtrip (side : Side) (t : Ty) (v : Val) (h : HasTy t v) :
     ∃ d, ser .smile t v = some d ∧ de .smile side t d = .ok v := rt .smile side h
 
+/-- **no two values share a document** (either format): the wrapper chain loses nothing, so two well-typed
+    values of one type that serialize to the same document are the same value — e.g. `NaN` and the string
+    `"NaN"` never meet at one type, a binary and its text do not collide, a map keeps its key typing -/
+theorem C01_ser_injective (fmt : Fmt) (t : Ty) (v w : Val) (hv : HasTy t v) (hw : HasTy t w)
+    (e : ser fmt t v = ser fmt t w) : v = w := by
+  obtain ⟨d, hs, hd⟩ := rt fmt .client hv
+  obtain ⟨d', hs', hd'⟩ := rt fmt .client hw
+  rw [e, hs'] at hs
+  cases hs
+  rw [hd] at hd'
+  cases hd'
+  rfl
+
 /-- **standard JSON**: the JSON document of a well-typed value contains no native binary and no
     non-finite number at any depth -/
 theorem C01_json_standard (t : Ty) (v : Val) (h : HasTy t v) (d : Doc) (hs : ser .json t v = some d) :
